@@ -31,10 +31,12 @@ def gen_path(r):
 
 
 def gen_value(r):
-    """-> None (no value) | bytes ; never a lone double quote (outside the hypothesis lf_val_ok)"""
+    """-> None (no value) | bytes"""
     x = r.random()
     if x < 0.10:
         return None
+    if x < 0.115:
+        return b'"'                  # one double quote: not a quoted string (F20e)
     if x < 0.18:
         return b""
     n = r.choice([1, 1, 1, 2, 2, 3, 4])
@@ -163,7 +165,7 @@ def py_filter(q, x):
         if nm == name:
             if v is None:
                 return False
-            u = v[1:-1] if v[:1] == b'"' else v
+            u = v[1:-1] if (v[:1] == b'"' and len(v) >= 2) else v
             if name in (b"rt", b"if", b"rel"):
                 return any(py_match(pfx, p, t) for t in py_tokens(u))
             return py_match(pfx, p, u)
@@ -208,7 +210,7 @@ def gen_filter(r, ops):
         return "href-cut", b"href=" + lead + p[:k]
     if x < 0.88 and cands:
         nm, v = r.choice(cands)
-        u = v[1:-1] if v[:1] == b'"' else v
+        u = v[1:-1] if (v[:1] == b'"' and len(v) >= 2) else v
         ts = py_tokens(u) or [b""]
         t = r.choice(ts)
         y = r.random()
